@@ -196,6 +196,7 @@ class State:
         self.timeout_ms = timeout_ms
         self.base_axioms = list(base_axioms)
         self.scopes = []
+        self.shared = {}
         self._new_solver()
         self._lit = z3.Bool('!feasible')
         self.class_ids = {}
@@ -259,6 +260,7 @@ class State:
         cp['heap'] = {k: dict(v) for k, v in self.heap.items()}
         cp['ghost'] = {k: (dict(v) if isinstance(v, dict) else v) for k, v in self.ghost.items()}
         cp['class_ids'], cp['class_by_id'] = dict(self.class_ids), dict(self.class_by_id)
+        cp['shared'] = dict(self.shared)
         return cp
 
     def restore(self, cp):
@@ -271,6 +273,7 @@ class State:
         self.heap = {k: dict(v) for k, v in cp['heap'].items()}
         self.ghost = {k: (dict(v) if isinstance(v, dict) else v) for k, v in cp['ghost'].items()}
         self.class_ids, self.class_by_id = dict(cp['class_ids']), dict(cp['class_by_id'])
+        self.shared = dict(cp['shared'])
         self._new_solver()
 
     # ---- naming ---------------------------------------------------------------------
@@ -311,6 +314,16 @@ class State:
 
     def setf(self, ref, field, value):
         self.heap[ref.id][field] = value
+        # fields that model storage mutated in place and shared by several objects (see share_field): write through
+        for oid, f in self.shared.get((ref.id, field), ()):
+            self.heap[oid][f] = value
+
+    def share_field(self, a, b, field):
+        """from now on field `field` of objects a and b denotes one shared mutable store (the current value of b's)"""
+        group = set(self.shared.get((a.id, field), ())) | set(self.shared.get((b.id, field), ())) | {(a.id, field), (b.id, field)}
+        for member in group:
+            self.shared[member] = tuple(m for m in group if m != member)
+        self.setf(b, field, self.heap[b.id][field])
 
     def snapshot(self):
         return Snapshot({k: dict(v) for k, v in self.heap.items()}, self)
